@@ -106,12 +106,16 @@ fn generate_error_definitions(
                 let comment_objects = shared::generate_comment_objects(&comments, crate_path);
                 let error_variant = quote! {
                     &{
+                        // Not inside the `match`: a borrow of a temporary there would not live
+                        // long enough.
+                        const COMMENTS: &[&#crate_path::idl::Comment<'static>] =
+                            &[#(#comment_objects),*];
                         match <#field_type as #crate_path::introspect::Type>::TYPE {
                             #crate_path::idl::Type::Object(fields) => {
                                 let #crate_path::idl::List::Borrowed(field_slice) = fields else {
                                     panic!("Owned List not supported in const context")
                                 };
-                                #crate_path::idl::Error::new(#variant_name, field_slice, &[#(#comment_objects),*])
+                                #crate_path::idl::Error::new(#variant_name, field_slice, COMMENTS)
                             }
                             _ => panic!("Tuple variant field type must have Type::Object"),
                         }
